@@ -28,6 +28,12 @@ CLAIMS = {
         note=LEAN_NOTE + "bytes crate panic conditions as modelled in Model/Basic.lean; heap budget 64 x bytes received + 32 KiB",
         technique="Lean 4 proof (explicit panic outcomes, retained-bytes invariant) + hostile-input correspondence with heap/stack observation",
     ),
+    "C19": dict(
+        engine="endpoint",
+        text="Lean 4 theorems over the endpoint parser model (the two regexes' semantics spelled out over List Char): parse s = ok e <-> the declarative grammar of the property (strict, both directions), parse (display e) = ok e for every parsed e (round trip, IPv6 bracketed), the only slicing operation is in range and on char boundaries (total), IP literals become addresses. std::net enters through an explicit structure of laws (hypotheses of the round-trip theorem). Tie: real str::parse::<Endpoint>() + Display + re-parse vs the model, EXHAUSTIVELY over a 17-character alphabet (incl. newline, non-ASCII digit, upper case) to length 4/5 after 5 prefixes, grammar-based and mutated endpoints; the Lean models of std::net parse/print are compared with the real std on sampled addresses and near-valid IPv6/IPv4 texts.",
+        note=LEAN_NOTE + "regex crate semantics of the two patterns; Rust std::net (IPv4/IPv6 text laws are hypotheses, sampled)",
+        technique="Lean 4 proof (strictness iff, round trip modulo std::net laws) + exhaustive small-alphabet differential correspondence",
+    ),
 }
 
 
@@ -67,6 +73,7 @@ def main():
         "engines": [
             {"name": "tables", "path": "harness/src/tables.rs -> lean/ZmqVerif/Gen/Tables.lean", "serves_properties": ["C01", "C03", "C04"], "kind_free_text": "finite tables regenerated from the real code's behaviour on every run; theorems re-proved over them by decide"},
             {"name": "codec", "path": "harness/src/codec.rs + lean/Driver/Codec.lean", "serves_properties": ["C01", "C02", "C03"], "kind_free_text": "real ZmqCodec vs the Lean decoder/encoder model over a line protocol; hostile mode with counting allocator and small-stack thread"},
+            {"name": "endpoint", "path": "harness/src/endpoint.rs + lean/Driver/Endpoint.lean", "serves_properties": ["C19"], "kind_free_text": "real Endpoint::from_str/Display and std::net vs the Lean endpoint and IP text models"},
             {"name": "spec", "path": "lean/Driver/Spec.lean", "serves_properties": ["C01"], "kind_free_text": "Lean Spec predicates (strict RFC-23 grammar) evaluated on bytes the implementation produced"},
         ],
         "checks": checks,
